@@ -228,14 +228,56 @@ Section Transparent.
   Qed.
 End Transparent.
 
-(* errno: the direct call leaves the error code in the CALLER's errno; the wrapper's call runs on the proxy
-   pthread and no statement of a wrapper or of the proxy copies errno back (there is no field for it in the job) *)
-Definition errno_after_direct (e0 ret err : Z) : Z := if ret <? 0 then err else e0.
-Definition errno_after_wrapper (e0 ret err : Z) : Z := e0.
-Lemma errno_refuted_lemma : exists e0 ret err, ret < 0 /\ errno_after_wrapper e0 ret err <> errno_after_direct e0 ret err.
-Proof. exists 0, (-1), 9. split; [lia|]. vm_compute. congruence. Qed.
-Lemma errno_success_lemma : forall e0 ret err, 0 <= ret -> errno_after_wrapper e0 ret err = errno_after_direct e0 ret err.
-Proof. intros. unfold errno_after_wrapper, errno_after_direct. destruct (Z.ltb_spec ret 0); [lia|reflexivity]. Qed.
+(* errno *)
+Lemma errno_carried_lemma :
+  forall tail wrp, wrapper_restore wrp <> None -> proxy_stores_errno tail = true ->
+  forall e0 gerr ret err, (ret = -1 \/ 0 <= ret) ->
+    errno_after_wrapper tail wrp e0 gerr ret err = errno_after_direct e0 ret err.
+Proof.
+  intros tail wrp Hr Hs e0 gerr ret err Hret. unfold errno_after_wrapper, errno_after_direct.
+  destruct (wrapper_restore wrp) as [c|]; [|congruence]. rewrite Hs.
+  destruct c; unfold cond_holds; destruct Hret as [E|E].
+  - subst ret. reflexivity.
+  - destruct (Z.ltb_spec ret 0); [lia|reflexivity].
+  - subst ret. reflexivity.
+  - destruct (Z.eqb_spec ret (-1)); [lia|]. destruct (Z.ltb_spec ret 0); [lia|reflexivity].
+Qed.
+
+Lemma errno_tables_lemma :
+  forall body tail ws, errno_carried body tail ws = true ->
+  forall wrp, In wrp ws -> is_syscall_wrapper body wrp = true ->
+  forall e0 gerr ret err, (ret = -1 \/ 0 <= ret) ->
+    errno_after_wrapper tail wrp e0 gerr ret err = errno_after_direct e0 ret err.
+Proof.
+  intros body tail ws Hc wrp Hin Hsw e0 gerr ret err Hret. unfold errno_carried in Hc.
+  apply andb_prop in Hc. destruct Hc as [Hs Hall].
+  pose proof (proj1 (forallb_forall _ _) Hall wrp Hin) as H. cbv beta in H. rewrite Hsw in H.
+  apply errno_carried_lemma; try assumption.
+  destruct (wrapper_restore wrp); [congruence|discriminate].
+Qed.
+
+Lemma errno_refuted_lemma :
+  forall tail wrp, wrapper_restore wrp = None ->
+  exists e0 gerr ret err, ret < 0 /\ errno_after_wrapper tail wrp e0 gerr ret err <> errno_after_direct e0 ret err.
+Proof.
+  intros tail wrp H. exists 0, 0, (-1), 9. split; [lia|]. unfold errno_after_wrapper. rewrite H. vm_compute. congruence.
+Qed.
+
+Lemma errno_success_lemma :
+  forall tail wrp e0 gerr ret err, 0 <= ret -> errno_after_wrapper tail wrp e0 gerr ret err = errno_after_direct e0 ret err.
+Proof.
+  intros tail wrp e0 gerr ret err H. unfold errno_after_wrapper, errno_after_direct.
+  destruct (Z.ltb_spec ret 0); [lia|]. destruct (wrapper_restore wrp) as [[|]|]; unfold cond_holds; try reflexivity.
+  - destruct (Z.ltb_spec ret 0); [lia|reflexivity].
+  - destruct (Z.eqb_spec ret (-1)); [lia|reflexivity].
+Qed.
+
+(* the source is in one of the two consistent states: errno carried by the proxy AND restored by every system-call wrapper
+   (and by nothing else), or not mentioned at all.  A half-applied change (a wrapper restoring a field the proxy never
+   fills, one wrapper forgotten, the store placed after the requeue) makes this fail. *)
+Lemma errno_consistent_lemma :
+  errno_carried switch_body proxy_tail wrappers || errno_absent proxy_tail wrappers = true.
+Proof. vm_compute. reflexivity. Qed.
 
 (* ------------------------------------------------------------------ all interleavings of one job's life cycle *)
 Definition emit1 (e : option obs) (tr : list obs) : list obs := match e with Some x => x :: tr | None => tr end.
@@ -367,3 +409,23 @@ Example transparent_hyps_inhabited :
   Forall2 in_range [TI32; TPtr; TU64; TI64] [5; 140737488355000; 10; 4294967303]%Z /\
   Forall2 in_range [TI32; TPtr; TU64] [-1; 0; 0]%Z /\ in_range TI64 (-1)%Z.
 Proof. repeat split; repeat constructor; vm_compute; intuition congruence. Qed.
+
+(* regression on the tables as they were before the errno fix: a wrapper of that shape loses the error code *)
+Definition old_read_wrapper : wrapper :=
+  mkWrapper "qt_read" READ [TI32; TPtr; TU64] (Some TI64)
+    [WAlloc; WSetThread; WSetOp; WMarshal 0 0 (InMemcpy W4); WMarshal 1 1 InCast; WMarshal 2 2 InCast; WSetBlockedOn; WSetState;
+     WPark; WReadRet; WFree; WReturnRet].
+Example errno_lost_on_old_tables :
+  wrapper_restore old_read_wrapper = None /\
+  errno_after_wrapper [PRequeue; PFree [USER_DEFINED]] old_read_wrapper 0 0 (-1) 9 <> errno_after_direct 0 (-1) 9.
+Proof. split; vm_compute; congruence. Qed.
+(* ... and one of the fixed shape carries it *)
+Definition new_read_wrapper : wrapper :=
+  mkWrapper "qt_read" READ [TI32; TPtr; TU64] (Some TI64)
+    [WAlloc; WSetThread; WSetOp; WMarshal 0 0 (InMemcpy W4); WMarshal 1 1 InCast; WMarshal 2 2 InCast; WSetBlockedOn; WSetState;
+     WPark; WReadRet; WRestoreErr ErrMinus1; WFree; WReturnRet].
+Example errno_carried_on_new_tables :
+  wrapper_restore new_read_wrapper <> None /\ proxy_stores_errno [PStoreErr; PRequeue; PFree [USER_DEFINED]] = true /\
+  errno_after_wrapper [PStoreErr; PRequeue; PFree [USER_DEFINED]] new_read_wrapper 0 77 (-1) 9 = errno_after_direct 0 (-1) 9.
+Proof. repeat split; vm_compute; congruence. Qed.
+
